@@ -123,4 +123,22 @@ CHECKS = {
                      'a crash during writing leaves a prefix of the new content (os.WriteFile truncates, then writes)',
                      'same-tick stores are emulated with os.Chtimes and only for stores through the loader that later loads'],
     ),
+    'C08': dict(
+        pkg='./c08', test='TestC08', level='exploration',
+        quick=dict(shards=8, checks=150),
+        thorough=dict(shards=16, checks=1500, budget_s=3000),
+        level_text=('Format: generated message sequences through mode.New/WriteMsg and Detect/ReadMsg over an exact-count in-memory pipe are compared '
+                    'byte-for-byte with a reference framer; every length 0..1024 step 4 per mode is enumerated. Segmentation: a listener plays a '
+                    'reference-framed stream over real loopback TCP cut by a generated composition (every composition of short streams / of the first '
+                    '10 (14) bytes exhaustively, random and 1-byte-at-a-time otherwise); transport.ReadMsg must return the same messages, signed error '
+                    'codes, io.EOF at an orderly close, and the client\'s own writes are re-parsed byte-exactly by the listener.'),
+        technique='property-based testing (rapid) + exhaustive enumeration of TCP write compositions against a reference framer over loopback TCP',
+        rule=('format case = (mode, 1..8 message lengths from {0,4,..,around 127 words,..,2^16 (2^20 thorough)}); tcp case = (mode, 0..5 plain packets, optional 4-byte '
+              'error frame with signed code, close at boundary/mid-message/none, composition of TCP write sizes, 0..3 messages written back); detect case = first '
+              'bytes. Non-trivial: >=2 messages, a message of >=127 words, a cut inside a header, >=2 messages in one segment, or >8 segments; distinct by hash of the case.'),
+        must_hit=['kind:format', 'kind:tcp', 'kind:detect', 'abridged', 'intermediate', 'msg>=127words', 'msg-at-127-word-switch', 'cut-inside-header',
+                  'error-frame-negative', 'close:boundary', 'close:mid', 'client-writes', 'many-segments', 'msg-empty'],
+        assumptions=['the kernel may coalesce separately written segments: that only weakens a case, it never falsifies one',
+                     'message lengths are multiples of 4 (every MTProto packet is)', 'in-memory pipe honours the exact-count read contract that tcpConn.Read provides'],
+    ),
 }
